@@ -8,7 +8,15 @@ package ice
 //
 // ops (tokens after "close"):
 //   new <id>                          two agents A, B over the hub (A with a small fake transport.Net)
-//   cand <A|B> <addr> <mode>          addCandidate with a scripted socket; mode letters: n plain, w writes block, e Close fails
+//   cand <A|B> <addr> <mode>          addCandidate with a scripted socket; mode letters: n plain, w writes block, e Close fails,
+//                                     fault profile (see vcConn): a blocked write is released by D deadline only | C Close only |
+//                                     X nothing but the environment (passw) [default: deadline or Close]; a blocked read by
+//                                     Q deadline only | R Close only [default: either]; s Close is slow (returns after the writes released
+//                                     by the deadline are back at their callers)
+//   tcpmux <A|B> <rbs>                a REAL TCPMuxDefault (fake listener, ReadBufferSize rbs) becomes the agent's TCPMux and tcp4 is
+//                                     enabled: the next gather adds a passive TCP host candidate over a real tcpPacketConn
+//   tcppeer <A|B> <k>                 a TCP client connects to the mux and sends k framed binding requests for the agent's ufrag
+//   tcpsend <A|B> <i> <k>             client i sends k more frames
 //   remote <A|B> <addr>               AddRemoteCandidate(host candidate at addr)
 //   start <A|B> <ctl>                 startConnect          dial <A|B> / accept <A|B>: Dial / Accept (blocking)
 //   read <A|B>  write <A|B> <len>  await <A|B>              blocking API calls, each in its own goroutine
@@ -22,6 +30,8 @@ package ice
 //   end                               release handlers, GracefulClose every agent, advance by the bound, census
 //   r1 <n>                            (outside sessions) n trials of the scenario behind modelling fact R1
 // output of every op: t=<ms>;E[<events>];A{<digest>};B{<digest>}   (see vcSession.digest / vcRec)
+// a session whose id starts with "m" is checked by the spec monitor only (its environment lies outside the model's
+// assumptions: slow socket Close, writes nothing aborts, the TCP mux); "w" is the deadlock witness
 // events: C<id>:<agent>:<kind>[:<detail>]  R<id>:<err>  H<agent><stream>:<ev>:enter|exit  all suffixed @<ms>
 
 import (
@@ -38,6 +48,7 @@ import (
 	"testing/synctest"
 	"time"
 
+	"github.com/pion/stun/v3"
 	"github.com/pion/transport/v4"
 )
 
@@ -93,12 +104,24 @@ func vcErr(err error) string {
 // ---- scripted socket ----
 
 // vcConn is a hub endpoint whose WriteTo can block until the deadline is set to now / the write is let
-// through by the environment / the socket is closed, and whose Close can fail.
+// through by the environment / the socket is closed, and whose Close can fail or be slow.  Fault profile: which of
+// the two abort actions of candidateBase.abortIO (SetDeadline(now), then Close) releases a blocked write / read.
+// A real UDP socket releases both by either; the profiles are the sub-behaviours a wrapped / muxed / fake
+// net.PacketConn may have (vcRelDeadline|vcRelClose = the real socket).
 type vcConn struct {
 	*vEP
 	mu       sync.Mutex
 	blockW   bool
 	closeErr bool
+	// Close is slow: it completes only after every write that its deadline has released is back at its caller
+	// (the socket's WriteTo has returned and, for Conn.Write calls made by the test, Conn.Write has returned).
+	// Not a sleep: the loop's onClose waits for the closer on the sync.Once of abortIO, i.e. on a mutex, and a
+	// goroutine waiting for a mutex is not durably blocked — the virtual clock would never advance.
+	slow  bool
+	userW int // Conn.Write calls of the test in flight through this socket
+	cond  *sync.Cond
+	wRel     int  // what releases a blocked write (vcRelDeadline | vcRelClose; 0 = only the environment)
+	rRel     int  // what releases a blocked read
 	rel      chan struct{} // closed once a deadline in the past has been set
 	relOnce  sync.Once
 	pass     chan struct{} // environment: one blocked write may complete
@@ -107,19 +130,31 @@ type vcConn struct {
 	name     string
 }
 
+const (
+	vcRelDeadline = 1
+	vcRelClose    = 2
+)
+
+func vcChanIf(on bool, ch chan struct{}) <-chan struct{} {
+	if on {
+		return ch
+	}
+	return nil
+}
+
 func (c *vcConn) WriteTo(b []byte, a net.Addr) (int, error) {
 	c.mu.Lock()
-	blk := c.blockW
+	blk, wRel := c.blockW, c.wRel
 	if blk {
 		c.nblocked++
 	}
 	c.mu.Unlock()
 	if blk {
-		defer func() { c.mu.Lock(); c.nblocked--; c.mu.Unlock() }()
+		defer func() { c.mu.Lock(); c.nblocked--; c.cond.Broadcast(); c.mu.Unlock() }()
 		select {
-		case <-c.closed:
+		case <-vcChanIf(wRel&vcRelClose != 0, c.closed):
 			return 0, io.ErrClosedPipe
-		case <-c.rel:
+		case <-vcChanIf(wRel&vcRelDeadline != 0, c.rel):
 			return 0, os.ErrDeadlineExceeded
 		case <-c.pass:
 		}
@@ -136,9 +171,9 @@ func (c *vcConn) ReadFrom(b []byte) (int, net.Addr, error) {
 	select {
 	case d := <-c.ch:
 		return copy(b, d.data), d.from, nil
-	case <-c.closed:
+	case <-vcChanIf(c.rRel&vcRelClose != 0, c.closed):
 		return 0, nil, io.EOF
-	case <-c.rel:
+	case <-vcChanIf(c.rRel&vcRelDeadline != 0, c.rel):
 		return 0, nil, os.ErrDeadlineExceeded
 	}
 }
@@ -152,11 +187,46 @@ func (c *vcConn) SetDeadline(t time.Time) error      { c.setDL(t); return nil }
 func (c *vcConn) SetReadDeadline(t time.Time) error  { c.setDL(t); return nil }
 func (c *vcConn) SetWriteDeadline(t time.Time) error { c.setDL(t); return nil }
 func (c *vcConn) Close() error {
+	c.mu.Lock()
+	if c.slow && c.wRel&vcRelDeadline != 0 {
+		select {
+		case <-c.rel: // the deadline has been armed (abortIO does it first): the writes it releases come back first
+			for c.nblocked > 0 || c.userW > 0 {
+				c.cond.Wait()
+			}
+			// … and whoever was released gets some real time to go on (a loop task released here finishes; were the
+			// loop still taking tasks it would start the next one) before this Close completes
+			c.mu.Unlock()
+			for i := 0; i < 2000; i++ {
+				runtime.Gosched()
+			}
+			c.mu.Lock()
+		default:
+		}
+	}
+	c.mu.Unlock()
 	_ = c.vEP.Close()
 	if c.closeErr {
 		return errors.New("scripted close failure")
 	}
 	return nil
+}
+
+// giveUp (end of the session): the environment stops holding writes that nothing aborts.
+func (c *vcConn) giveUp() {
+	c.mu.Lock()
+	none := 0
+	if c.wRel == 0 {
+		none = c.nblocked
+		c.wRel = vcRelDeadline | vcRelClose
+	}
+	c.mu.Unlock()
+	for i := 0; i < none; i++ {
+		select {
+		case c.pass <- struct{}{}:
+		default:
+		}
+	}
 }
 
 // the extra methods of transport.UDPConn (host gathering listens through the fake Net)
@@ -220,6 +290,13 @@ type vcAgent struct {
 	conn     *Conn
 	closedBy bool // the test has called Close/GracefulClose on it
 	net      *vcNet
+	nclosing int // Close / GracefulClose calls made by the test through op `close` / `end` that have not returned
+	nheld    int // handlers of this agent the test holds in mode "block"
+	// ICE-TCP: a real TCPMuxDefault over a fake listener, scripted TCP clients
+	mux   *TCPMuxDefault
+	lis   *vTcpListener
+	rbs   int
+	peers []*vTcpConn
 }
 
 type vcSession struct {
@@ -233,7 +310,23 @@ func (s *vcSession) newConn(owner *vcAgent, addr int, mode string) *vcConn {
 	ua := vAddr(0, addr)
 	ep := &vEP{h: s.base.hub, owner: owner.h, addr: ua, ch: make(chan vDgram, 4096), closed: make(chan struct{})}
 	c := &vcConn{vEP: ep, blockW: strings.Contains(mode, "w"), closeErr: strings.Contains(mode, "e"),
+		slow: strings.Contains(mode, "s"), wRel: vcRelDeadline | vcRelClose, rRel: vcRelDeadline | vcRelClose,
 		rel: make(chan struct{}), pass: make(chan struct{}), rec: s.rec, name: fmt.Sprint(addr)}
+	c.cond = sync.NewCond(&c.mu)
+	switch {
+	case strings.Contains(mode, "D"):
+		c.wRel = vcRelDeadline
+	case strings.Contains(mode, "C"):
+		c.wRel = vcRelClose
+	case strings.Contains(mode, "X"):
+		c.wRel = 0
+	}
+	switch {
+	case strings.Contains(mode, "Q"):
+		c.rRel = vcRelDeadline
+	case strings.Contains(mode, "R"):
+		c.rRel = vcRelClose
+	}
 	s.base.hub.mu.Lock()
 	s.base.hub.eps[ua.String()] = ep
 	s.base.hub.mu.Unlock()
@@ -260,7 +353,13 @@ func (s *vcSession) handler(ag *vcAgent, stream int, ev string) {
 	}
 	switch mode {
 	case "block":
+		ag.mu.Lock()
+		ag.nheld++
+		ag.mu.Unlock()
 		<-rel
+		ag.mu.Lock()
+		ag.nheld--
+		ag.mu.Unlock()
 	case "getlocal":
 		hcall("getlocal", func() error { _, err := a.GetLocalCandidates(); return err })
 	case "addremote":
@@ -316,6 +415,48 @@ func (s *vcSession) call(ag *vcAgent, kind string, f func() error) {
 		err := f()
 		s.rec.add("R%d:%s", id, vcErr(err))
 	}()
+}
+
+// closer starts a Close / GracefulClose of the agent in its own goroutine.
+func (s *vcSession) closer(ag *vcAgent, graceful bool) {
+	ag.mu.Lock()
+	ag.nclosing++
+	ag.mu.Unlock()
+	kind, f := "close", ag.h.a.Close
+	if graceful {
+		kind, f = "gclose", ag.h.a.GracefulClose
+	}
+	s.call(ag, kind, func() error {
+		defer func() { ag.mu.Lock(); ag.nclosing--; ag.mu.Unlock() }()
+		return f()
+	})
+}
+
+// stuckCloser (at a quiescent point): a Close of the test is pending although nothing of the test's making holds it
+// (no handler held in mode "block", no write that only the environment releases).  That closer may sit INSIDE the
+// sync.Once of the task loop / of abortIO; another closer would then wait for the Once's mutex, which is not a
+// durable block: synctest.Wait would spin until the wall-clock watchdog.  So no further closer is piled on it; the
+// virtual clock goes on and clause (B) reports the one that hangs.
+func (s *vcSession) stuckCloser(ag *vcAgent) (stuck bool) {
+	ag.mu.Lock()
+	defer ag.mu.Unlock()
+	if ag.nclosing == 0 || ag.nheld > 0 {
+		return false
+	}
+	defer func() {
+		if stuck {
+			vcSkipped++ // statistic `close.skipped-closer`: stays 0 on a tree that satisfies the property
+		}
+	}()
+	for _, k := range ag.cands {
+		k.conn.mu.Lock()
+		held := k.conn.wRel == 0 && k.conn.nblocked > 0
+		k.conn.mu.Unlock()
+		if held {
+			return false
+		}
+	}
+	return true
 }
 
 func vcClosed(ch <-chan struct{}) int {
@@ -378,7 +519,44 @@ func (s *vcSession) digest(ag *vcAgent) string {
 	if a.connectionState == ConnectionStateClosed {
 		x = 1
 	}
-	return fmt.Sprintf("d=%d;x=%d;K=%s;N=%s;nl=%d;nr=%d", vcClosed(a.loop.Done()), x, strings.Join(ks, ","), strings.Join(ns, ","), nl, nr)
+	tcp := ""
+	if ag.mux != nil {
+		// T=<ReadBufferSize>:<packet conns of the agent's ufrags in the mux>:<queued packets>:<open TCP connections>:<clients closed by the mux>
+		npc, nq, nconn, ncl := 0, 0, 0, 0
+		ag.mux.mu.Lock()
+		for _, m := range []map[string]map[ipAddr]*tcpPacketConn{ag.mux.connsIPv4, ag.mux.connsIPv6} {
+			for _, pcs := range m {
+				for _, pc := range pcs {
+					npc++
+					nq += len(pc.recvChan)
+					pc.mu.Lock()
+					nconn += len(pc.conns)
+					pc.mu.Unlock()
+				}
+			}
+		}
+		ag.mux.mu.Unlock()
+		for _, p := range ag.peers {
+			if p.isClosed() {
+				ncl++
+			}
+		}
+		tcp = fmt.Sprintf(";T=%d:%d:%d:%d:%d", ag.rbs, npc, nq, nconn, ncl)
+	}
+	return fmt.Sprintf("d=%d;x=%d;K=%s;N=%s;nl=%d;nr=%d%s", vcClosed(a.loop.Done()), x, strings.Join(ks, ","), strings.Join(ns, ","), nl, nr, tcp)
+}
+
+// vcTCPFrame: an RFC 4571 framed STUN binding request addressed to the agent's ufrag (no integrity: the agent
+// drops it after taking it from the queue; what matters here is the queue between the TCP reader and the agent).
+func vcTCPFrame(ufrag string) []byte {
+	msg, err := stun.Build(stun.BindingRequest, stun.TransactionID, stun.NewUsername(ufrag+":peer"))
+	if err != nil {
+		return nil
+	}
+	f := make([]byte, 2+len(msg.Raw))
+	f[0], f[1] = byte(len(msg.Raw)>>8), byte(len(msg.Raw))
+	copy(f[2:], msg.Raw)
+	return f
 }
 
 func (s *vcSession) render() string {
@@ -470,7 +648,17 @@ func (s *vcSession) exec(t []string) string {
 			detail = fmt.Sprint(vAddrID(p.Local.addrPort()))
 		}
 		n := vAtoi(t[2])
+		var sock *vcConn
+		if k := s.findCand(ag, vAtoi(detail)); detail != "nopair" && k != nil {
+			sock = k.conn
+			sock.mu.Lock()
+			sock.userW++
+			sock.mu.Unlock()
+		}
 		s.call(ag, "write:"+detail, func() error {
+			if sock != nil {
+				defer func() { sock.mu.Lock(); sock.userW--; sock.cond.Broadcast(); sock.mu.Unlock() }()
+			}
 			w, err := (&Conn{agent: ag.h.a}).Write(vPayload(n, false))
 			if err == nil && w != n {
 				return fmt.Errorf("short write %d of %d without error", w, n)
@@ -498,6 +686,49 @@ func (s *vcSession) exec(t []string) string {
 			s.call(ag, "stats", func() error { _ = a.GetCandidatePairsStats(); return nil })
 		default:
 			return "bad-op api"
+		}
+	case "tcpmux":
+		if len(t) < 3 {
+			return "bad-op tcpmux"
+		}
+		if ag.mux != nil { // out of context (a shrunk session): no-op, like blockw on an unknown socket
+			break
+		}
+		ag.rbs = vAtoi(t[2])
+		ag.lis = &vTcpListener{ch: make(chan net.Conn), closed: make(chan struct{}), addr: &net.TCPAddr{IP: net.IPv4zero, Port: 7000}}
+		ag.mux = NewTCPMuxDefault(TCPMuxParams{Listener: ag.lis, ReadBufferSize: ag.rbs})
+		// (the agent is at rest: same in-package configuration as `a.net` in newAgent)
+		ag.h.a.tcpMux = ag.mux
+		ag.h.a.networkTypes = append(append([]NetworkType{}, ag.h.a.networkTypes...), NetworkTypeTCP4)
+	case "tcppeer":
+		if len(t) < 3 {
+			return "bad-op tcppeer"
+		}
+		if ag.mux == nil { // out of context (a shrunk session dropped `tcpmux`): no-op, never a failure of its own
+			break
+		}
+		i := len(ag.peers)
+		c := &vTcpConn{wake: make(chan struct{}),
+			local:  &net.TCPAddr{IP: vAddr(0, 16*ag.net.ip).IP, Port: 7000},
+			remote: &net.TCPAddr{IP: net.IPv4(192, 0, 2, byte(1+i)), Port: 40000 + i}}
+		ag.peers = append(ag.peers, c)
+		select {
+		case ag.lis.ch <- c:
+		case <-ag.lis.closed:
+			c.clientClose(true)
+		}
+		for k := 0; k < vAtoi(t[2]); k++ {
+			c.push(vcTCPFrame(ag.h.a.localUfrag))
+		}
+	case "tcpsend":
+		if len(t) < 4 {
+			return "bad-op tcpsend"
+		}
+		if ag.mux == nil || vAtoi(t[2]) >= len(ag.peers) { // out of context: no-op
+			break
+		}
+		for k := 0; k < vAtoi(t[3]); k++ {
+			ag.peers[vAtoi(t[2])].push(vcTCPFrame(ag.h.a.localUfrag))
 		}
 	case "blockw":
 		if k := s.findCand(ag, vAtoi(t[2])); k != nil {
@@ -533,12 +764,11 @@ func (s *vcSession) exec(t []string) string {
 		s.rec.add("REL:%s", ag.letter)
 	case "close":
 		ag.closedBy = true
+		if s.stuckCloser(ag) {
+			break
+		}
 		for _, g := range t[2:] {
-			if g == "1" {
-				s.call(ag, "gclose", func() error { return ag.h.a.GracefulClose() })
-			} else {
-				s.call(ag, "close", func() error { return ag.h.a.Close() })
-			}
+			s.closer(ag, g == "1")
 		}
 	case "dump": // debugging aid: goroutine stacks at this point of the session
 		vcDump("dump")
@@ -588,7 +818,25 @@ func (s *vcSession) finish() string {
 	synctest.Wait()
 	for _, l := range []string{"A", "B"} {
 		ag := s.ag[l]
-		s.call(ag, "gclose", func() error { return ag.h.a.GracefulClose() })
+		ag.mu.Lock()
+		cands := append([]*vcCand{}, ag.cands...)
+		ag.mu.Unlock()
+		for _, k := range cands {
+			k.conn.giveUp()
+		}
+	}
+	synctest.Wait()
+	for _, l := range []string{"A", "B"} {
+		if ag := s.ag[l]; !s.stuckCloser(ag) {
+			s.closer(ag, true)
+		}
+	}
+	synctest.Wait()
+	// the application closes its TCP mux after its agents (the mux outlives them: its goroutines are not the agent's)
+	for _, l := range []string{"A", "B"} {
+		if ag := s.ag[l]; ag.mux != nil {
+			s.call(ag, "muxclose", func() error { return ag.mux.Close() })
+		}
 	}
 	synctest.Wait()
 	time.Sleep((vcBoundMs + 1) * time.Millisecond)
@@ -704,9 +952,25 @@ func vcDump(tag string) {
 
 // vcSend hands one op to the bubble; a wall-clock watchdog catches what synctest cannot see (a goroutine
 // spinning or blocked on a sync.Mutex is not "durably blocked", so synctest.Wait never returns).
-func vcSend(toks []string) string {
+// vcAlarms counts watchdog alarms / dead sessions of this run: the first alarm waits 20 s of real time, later ones
+// 3 s (the violation is established), and the generator stops after three.
+var vcAlarms int
+
+// vcSkipped counts closers not started because an earlier one hangs (see stuckCloser).
+var vcSkipped int
+
+func vcSend(toks []string) (res string) {
 	resp := make(chan string, 1)
-	wd := time.NewTimer(20 * time.Second)
+	d := 20 * time.Second
+	if vcAlarms > 0 {
+		d = 3 * time.Second
+	}
+	wd := time.NewTimer(d)
+	defer func() {
+		if strings.HasPrefix(res, "WATCHDOG") || strings.HasPrefix(res, "SESSION-DIED") {
+			vcAlarms++
+		}
+	}()
 	defer wd.Stop()
 	select {
 	case vcIn <- vReq{toks, resp}:
@@ -726,7 +990,7 @@ func vcSend(toks []string) string {
 		case <-wd.C:
 			vcDump("watchdog")
 			vcIn = nil
-			return "WATCHDOG no quiescence within 20 s of real time (mutex deadlock or livelock); goroutines dumped"
+			return fmt.Sprintf("WATCHDOG no quiescence within %d s of real time (mutex deadlock or livelock); goroutines dumped", int(d.Seconds()))
 		}
 	case r := <-vcDone:
 		vcIn = nil
@@ -790,10 +1054,20 @@ func vcExec(o *vOut, t []string) string {
 		return "bad-op no session"
 	}
 	if t[1] == "end" {
-		return vcEnd()
+		sk := vcSkipped
+		r := vcEnd()
+		if vcSkipped > sk {
+			o.stat("close.skipped-closer")
+		}
+		return r
 	}
 	o.stat("op." + t[1])
-	return vcSend(t[1:])
+	sk := vcSkipped
+	res := vcSend(t[1:])
+	if vcSkipped > sk {
+		o.stat("close.skipped-closer")
+	}
+	return res
 }
 
 func vcEnd() string {
